@@ -380,6 +380,11 @@ def _build(mir, body, call_oracle, field_oracle, depth, event_of):
             if isinstance(v, tuple) and v and v[0] == 'some':
                 return nm.endswith('is_some')
             return UNKNOWN
+        if nm in ('std::result::Result::is_ok', 'std::result::Result::is_err') and vals:
+            v = deref(R0, env, vals[0])
+            if isinstance(v, tuple) and v and v[0] in ('ok', 'err'):
+                return (v[0] == 'ok') == nm.endswith('is_ok')
+            return UNKNOWN
         if nm.endswith('Try>::branch') or nm == 'std::ops::Try::branch':
             v = vals[0] if vals else UNKNOWN
             if isinstance(v, tuple) and v and v[0] == 'ok':
